@@ -1128,8 +1128,10 @@ func (up4 *UP4) configureMeters(qers []qer) error {
 }
 
 func verifyPDR(pdr pdr) error {
-	if pdr.precedence > math.MaxUint16 {
-		return ErrUnsupported("precedence greater than 65535", pdr.precedence)
+	// The applications table has ternary and range fields, so its entries need a non-zero
+	// priority; priority is 65535 - precedence, which leaves 0..65534 for the precedence.
+	if pdr.precedence >= math.MaxUint16 {
+		return ErrUnsupported("precedence greater than 65534", pdr.precedence)
 	}
 
 	return nil
